@@ -301,6 +301,14 @@ class Interp:
             if name in c.inner:
                 return self.L.build_class(c.module, c.inner[name], self, outer=c)
             if name in c.assigns:
+                mut = self.L.mutable_class_attrs()
+                if ((c.name, name) in mut or ("*", name) in mut) and self.verifying is not None and not c.is_enum:
+                    from .values import VAny
+                    v = VAny(f"{c.name}.{name}")
+                    self.path.assumption(f"mutable class attribute {c.name}.{name} (assigned somewhere in the repository, not declared in the contract): "
+                                         f"arbitrary value at function entry")
+                    self.path.globals[key] = v
+                    return v
                 if c.is_enum and not name.startswith("__"):
                     v = self.enum_member(c, name)
                 else:
